@@ -247,11 +247,12 @@ def run(scn, keep_log=False):
                     k.count('peer_' + pc.get('how', 'eof'))
                     fe.close(pc['c'], pc.get('how', 'eof'))
             return ev
-        for pc in scn.get('peer_closes') or []:
-            # at an arbitrary instant of the history (also between the pieces of one frame)
-            k.call_at(t + float(pc['at']), peer_close(pc), 'peer-close:c%d' % pc['c'])
         for cid_s, when in sorted(open_at.items()):
             k.call_at(t + float(when), (lambda cid=int(cid_s): fe.open(cid)), 'open:c%s' % cid_s)
+        for pc in scn.get('peer_closes') or []:
+            # at an arbitrary instant of the history (also between the pieces of one frame); scheduled after the
+            # opens so that "re-connected, then the server learns that the old connection is gone" is expressible
+            k.call_at(t + float(pc['at']), peer_close(pc), 'peer-close:c%d' % pc['c'])
         for d in scn['deliveries']:
             t += float(d.get('gap', 0.0))
             data = bytes.fromhex(d['hex'])
